@@ -213,15 +213,23 @@ def gen_case(world, tier, prop):
       op = {'op': 'setitem', 'key': key, 'vs': [g.value() for _ in range(k)]}
     elif r < 0.86:
       op = {'op': 'delitem', 'key': g.key(m, rng.random() < 0.5)}
-    else:
+    elif r < 0.95:
       op = {'op': 'build'} if btype == 'Config' else {'op': 'getitem', 'key': {'slice': [None, None, None]}}
+    else:
+      # the config is replaced by a copy of itself: nothing observable changes
+      op = {'op': 'swap', 'how': rng.choice(['deepcopy', 'deepcopy', 'copy', 'pickle'])}
+      if op['how'] != 'copy':
+        # values created so far now live on in the discarded original only
+        g.shareable = []
+        snapshot = []
     ops.append(op)
     # advance the model so later ops are generated against the right size
     try:
       apply_model(m, op, mk)
     except M.Invalid:
       g.shareable = snapshot  # values of a refused op never come to exist
-  return {'spec': spec, 'init': init, 'ops': ops}
+  early = rng.choice(['deepcopy', 'deepcopy', 'copy', 'pickle']) if rng.random() < 0.15 else None
+  return {'spec': spec, 'init': init, 'ops': ops, 'early_copy': early}
 
 
 # --------------------------------------------------------------------------
@@ -403,6 +411,20 @@ def run(case):
     res['violations'].append(viol('C03', 'valid-op-raised', {'op': 'construct'}, msg, m))
     res['violations'].append(viol('C01', 'constructor-binding', {'op': 'construct'}, msg, m))
     return res
+  if case.get('early_copy') and case['spec']['kind'] not in ('inst', 'uinst', 'part'):
+    # a copy taken before ANYTHING has looked at the fresh config (lazily
+    # computed bookkeeping must survive being copied in its initial state)
+    import copy as _copy
+    import pickle as _pickle
+    try:
+      cfg = {'deepcopy': _copy.deepcopy, 'copy': _copy.copy,
+             'pickle': lambda c: _pickle.loads(_pickle.dumps(c))}[case['early_copy']](cfg)
+    except Exception as e:  # pylint: disable=broad-except
+      msg = f'{case["early_copy"]} of a fresh config raised {type(e).__name__}: {e}'
+      res['violations'].append(viol('C03', 'valid-op-raised', {'op': 'construct'}, msg, m))
+      res['violations'].append(viol('C01', 'copy-reports-differently', {'op': 'construct'}, msg, m))
+      return res
+    probes['copied_before_first_use'] = 1
   om, oi = C.canon(observe_model(m)), C.canon(observe_impl(cfg, m))
   if om != oi:
     msg = 'after construction: ' + '; '.join(C.diff(om, oi))
@@ -418,6 +440,28 @@ def run(case):
       v = check_build(cfg, m, op, probes)
       if v:
         res['violations'].append(v)
+        return res
+      continue
+    if kind == 'swap':
+      import copy as _copy
+      import pickle as _pickle
+      if case['spec']['kind'] in ('inst', 'uinst', 'part') and op['how'] != 'copy':
+        continue   # deep copies duplicate callable instances / partial objects
+      try:
+        cfg = {'deepcopy': _copy.deepcopy, 'copy': _copy.copy,
+               'pickle': lambda c: _pickle.loads(_pickle.dumps(c))}[op['how']](cfg)
+      except Exception as e:  # pylint: disable=broad-except
+        res['violations'].append(viol('C03', 'valid-op-raised', op,
+                                      f'op #{idx} {op["how"]} of the config raised '
+                                      f'{type(e).__name__}: {e}', m))
+        return res
+      probes['swapped_for_copy'] = probes.get('swapped_for_copy', 0) + 1
+      oi2 = C.canon(observe_impl(cfg, m))
+      if oi2 != oi:
+        msg = (f'op #{idx}: a {op["how"]} of the config reports different arguments: '
+               + '; '.join(C.diff(oi, oi2)))
+        res['violations'].append(viol('C03', 'state-mismatch', op, msg, m))
+        res['violations'].append(viol('C01', 'copy-reports-differently', op, msg, m))
         return res
       continue
     before_i = oi
